@@ -563,18 +563,7 @@ func (a vfAnyReq) ContextCtl(env *vfEnvT) (*context.Context, vfReqCtl, bool) {
 // wrapper waits before the next attempt (the long waits make "during the back-off" the common
 // outcome; nobody ever pays a full wait because no request of such a case has a live context).
 // Returns the scenario class ("" = not applied).
-func vfRetryCancelScenario(g *vfG, body map[string]interface{}, info *vfPipeInfo) string {
-	var proxy map[string]interface{}
-	fs, _ := body["filters"].([]interface{})
-	for _, f := range fs {
-		if fm, ok := f.(map[string]interface{}); ok && fm["kind"] == "Proxy" {
-			proxy = fm
-			break
-		}
-	}
-	if proxy == nil || !g.chance("scenario", "retry+client-gone", 30) {
-		return ""
-	}
+func vfRetryCancelScenario(g *vfG, proxy, body map[string]interface{}, info *vfPipeInfo) string {
 	pol := vfGenPolicyTree(g, "Retry", 0)
 	pol["name"] = "rwait"
 	pol["maxAttempts"] = g.intn("scenario", "maxAttempts", 1, 3)
@@ -617,6 +606,79 @@ func vfRetryCancelScenario(g *vfG, body map[string]interface{}, info *vfPipeInfo
 	return class
 }
 
+// vfFirstProxy returns the tree of the first Proxy filter of a pipeline body (nil = none).
+func vfFirstProxy(body map[string]interface{}) map[string]interface{} {
+	fs, _ := body["filters"].([]interface{})
+	for _, f := range fs {
+		if fm, ok := f.(map[string]interface{}); ok && fm["kind"] == "Proxy" {
+			return fm
+		}
+	}
+	return nil
+}
+
+// vfRetryFailureCodeScenario (some of the pipelines that contain a Proxy): every pool of the first
+// Proxy refers to a fast Retry policy (2..3 attempts, ~1 ms wait), lists failureCodes, takes stream
+// responses most of the time (serverMaxBodySize -1 on the pool or on the proxy) and talks to the
+// live in-process backend most of the time. Requests of such a case mostly ask for /status/<code>
+// (a listed failure code keeps the response and retries) and mostly carry an X-Vf-Once id, so that
+// the retried attempt gets no response at all (vfBackend closes the connection): the sequence
+// "response with a failure code, then an attempt without any response".
+func vfRetryFailureCodeScenario(g *vfG, proxy, body map[string]interface{}, info *vfPipeInfo) string {
+	pol := vfGenPolicyTree(g, "Retry", 0)
+	pol["name"] = "rfast"
+	pol["maxAttempts"] = g.intn("scenario", "maxAttempts", 2, 3)
+	pol["waitDuration"] = g.pick("scenario", "waitDuration", "1ms", "1ns", "2ms")
+	rs, _ := body["resilience"].([]interface{})
+	rs = append(rs, pol)
+	body["resilience"] = rs
+	info.Policies = rs
+	info.PolicyNames = append(info.PolicyNames, "rfast")
+	stream := g.pick("scenario", "stream", "pool", "proxy", "pool", "no")
+	live := g.chance("scenario", "live-backend", 75)
+	if stream == "proxy" {
+		proxy["serverMaxBodySize"] = -1
+	}
+	pools, _ := proxy["pools"].([]interface{})
+	for _, p := range pools {
+		pm, ok := p.(map[string]interface{})
+		if !ok {
+			continue
+		}
+		pm["retryPolicy"] = "rfast"
+		switch g.pick("scenario", "failureCodes", "503", "500+503", "404+500+503") {
+		case "503":
+			pm["failureCodes"] = []interface{}{503}
+		case "500+503":
+			pm["failureCodes"] = []interface{}{500, 503}
+		default:
+			pm["failureCodes"] = []interface{}{404, 500, 503}
+		}
+		switch stream {
+		case "pool":
+			pm["serverMaxBodySize"] = -1
+		case "proxy":
+			delete(pm, "serverMaxBodySize")
+		}
+		if svs, _ := pm["servers"].([]interface{}); live {
+			for _, sv := range svs {
+				if sm, ok := sv.(map[string]interface{}); ok {
+					sm["url"] = g.pick("scenario", "live-url", g.pools.BackendURL, g.pools.BackendURL+"/base")
+				}
+			}
+		}
+	}
+	class := "scenario:retry+failure-code stream-response=" + stream
+	if live {
+		class += " backend=live"
+	} else {
+		class += " backend=generated"
+	}
+	g.bounds[class] = true
+	g.present["scenario.retry+failure-code"] = true
+	return class
+}
+
 func vfGenAnyReq(rt *rapid.T, mqtt bool) vfAnyReq {
 	if mqtt {
 		r := vfGenMQTTReq(rt)
@@ -642,8 +704,13 @@ func TestVerifC13Pipeline(t *testing.T) {
 		vfFixPolicyRefs(g, body)
 		vfShapeBody(g, "", body, &info)
 		scenario := ""
-		if !info.MQTT {
-			scenario = vfRetryCancelScenario(g, body, &info)
+		if proxy := vfFirstProxy(body); proxy != nil && !info.MQTT {
+			switch g.pick("scenario", "which", "none", "retry+client-gone", "retry+failure-code", "none", "retry+client-gone", "retry+failure-code", "none", "retry+client-gone", "retry+failure-code", "none") {
+			case "retry+client-gone":
+				scenario = vfRetryCancelScenario(g, proxy, body, &info)
+			case "retry+failure-code":
+				scenario = vfRetryFailureCodeScenario(g, proxy, body, &info)
+			}
 		}
 		if info.DanglingNS && vf.HasKnown("flow-node-namespace-without-request panic=interface conversion") && vfChance(rt, "steer-away-from-known", 80) {
 			// known finding: steer away by construction most of the time (still produced sometimes,
@@ -699,7 +766,21 @@ func TestVerifC13Pipeline(t *testing.T) {
 				}
 			}
 			if rq.http != nil {
-				if scenario != "" {
+				if strings.HasPrefix(scenario, "scenario:retry+failure-code") {
+					script := "generated"
+					if vfChance(rt, "scenario-status-path", 80) {
+						rq.http.Path = vfPick(rt, "scenario-status", "/status/503", "/status/500", "/status/404", "/status/503")
+						script = "always-fail"
+						if vfChance(rt, "scenario-once", 75) {
+							rq.http.Hdr = append(rq.http.Hdr, [2]string{"X-Vf-Once", vfOnceID()})
+							script = "fail-then-no-response"
+						}
+					}
+					if vfChance(rt, "scenario-buffered-request", 80) {
+						rq.http.MaxBody = 0 // a stream request is never retried
+					}
+					vf.Class("retry+failure-code request script=" + script)
+				} else if scenario != "" {
 					rq.http.Ctx = vfPick(rt, "scenario-request-context", vfCtxModes...)
 					if vfChance(rt, "scenario-buffered-request", 80) {
 						rq.http.MaxBody = 0 // a stream request is never retried
